@@ -20,9 +20,12 @@ Cl(name, ok) == [c |-> name, ok |-> ok]
 Steps(t) == Traces[t].steps
 
 (* y is x with the subtree at `path` replaced by `new`; every other subtree keeps its id, every label on   *)
-(* the path is unchanged                                                                                    *)
-RECURSIVE ReplacedAt(_, _, _, _)
-ReplacedAt(x, y, path, new) ==
+(* the path is unchanged.  `dep` names the field of the parent that is a function of the operand's source   *)
+(* (Prec!Dependent): "debugtext" - the Constant right before the FormattedValue in JoinedStr.values (the     *)
+(* path ends ... values[i] . value, so it is met with two steps left); "simple" - AnnAssign.simple (one     *)
+(* step left).  A dependent field may change, but only into a node of the same kind.                        *)
+RECURSIVE ReplacedAtD(_, _, _, _, _)
+ReplacedAtD(x, y, path, new, dep) ==
   IF path = <<>> THEN y = new
   ELSE IF x = 0 \/ y = 0 THEN FALSE
   ELSE
@@ -30,19 +33,26 @@ ReplacedAt(x, y, path, new) ==
   /\ \A i \in 1..Len(STab[x].f) :
        LET fx == STab[x].f[i]  fy == STab[y].f[i] IN
        /\ fx.n = fy.n
-       /\ IF fx.n # path[1].n THEN fx.c = fy.c
+       /\ IF fx.n # path[1].n
+          THEN \/ fx.c = fy.c
+               \/ /\ dep = "simple" /\ Len(path) = 1 /\ fx.n = "simple"
+                  /\ Len(fx.c) = 1 /\ Len(fy.c) = 1 /\ Kind(fx.c[1]) = Kind(fy.c[1])
           ELSE /\ Len(fx.c) = Len(fy.c) /\ path[1].i \in 1..Len(fx.c)
                /\ \A j \in 1..Len(fx.c) :
-                    IF j = path[1].i THEN ReplacedAt(fx.c[j], fy.c[j], Tail(path), new) ELSE fx.c[j] = fy.c[j]
+                    IF j = path[1].i THEN ReplacedAtD(fx.c[j], fy.c[j], Tail(path), new, dep)
+                    ELSE \/ fx.c[j] = fy.c[j]
+                         \/ /\ dep = "debugtext" /\ Len(path) = 2 /\ j = path[1].i - 1
+                            /\ Kind(fx.c[j]) = "Constant" /\ Kind(fy.c[j]) = "Constant"
+ReplacedAt(x, y, path, new) == ReplacedAtD(x, y, path, new, "none")
 
 Known(e) == IsSlot(e.slot) /\ e.child \in KindsFor(e.slot)
-Is(pre, r, e, new) == r # 0 /\ ReplacedAt(pre, r, e.path, new)
+Is(pre, r, e, new) == r > 0 /\ ReplacedAtD(pre, r, e.path, new, Dependent(e.slot))
 
 (* ---- spec <-> CPython ---------------------------------------------------- *)
 (* J = Judge(slot, child) of Prec.tla.                                                                       *)
 (* r[cp][pp]: rendering with the child (or, for `*a or b`, the star's operand) parenthesised iff cp and the  *)
 (* parent parenthesised iff pp (only for fill slots); 0 = does not parse, -1 = rendering does not exist      *)
-ChildNeed(J)  == J.needs \/ J.inner
+ChildNeed(J)  == J.needs \/ J.inner \/ J.blank
 ExpectOk(J, cp, pp) == /\ J.valid /\ (cp \/ ~ChildNeed(J)) /\ (pp \/ ~J.parent)
                        /\ (cp => J.parok) /\ ~J.dbl
 GramRender(e, J, name, r, cp, pp) ==
@@ -52,6 +62,8 @@ GramClauses(e) ==
   LET J == Judge(e.slot, e.child) IN
   GramRender(e, J, "Gram.bare", e.r00, FALSE, FALSE) \cup GramRender(e, J, "Gram.childpar", e.r10, TRUE, FALSE)
   \cup GramRender(e, J, "Gram.parentpar", e.r01, FALSE, TRUE) \cup GramRender(e, J, "Gram.bothpar", e.r11, TRUE, TRUE)
+  \cup (IF e.rblank = -1 THEN {} ELSE      \* a blank in front of the operand instead of parentheses (f-string fields)
+        {Cl("Gram.blank", Is(e.preS, e.rblank, e, e.newS) = (J.valid /\ ~J.needs /\ ~J.inner /\ ~J.dbl))})
   \cup (IF e.r20 = -1 THEN {} ELSE {Cl("Gram.doublepar", Is(e.preS, e.r20, e, e.newS) = (J.valid /\ J.parok))})
   \cup (IF e.comp00 = -1 \/ ~Is(e.preS, e.r00, e, e.newS) THEN {} ELSE {Cl("Gram.compile", (e.comp00 = 1) = J.comp)})
   \cup (IF e.comp10 = -1 \/ ~Is(e.preS, e.r10, e, e.newS) THEN {} ELSE {Cl("Gram.compile", (e.comp10 = 1) = J.comp)})
@@ -77,16 +89,25 @@ RefuseArglikeSource(e, J) == J.inner /\ e.form = "src"
 (* where the grammar has no parenthesised form (NAME ':=', name_or_attr '(') a request that comes in        *)
 (* parentheses or that would need them for its line breaks cannot be represented                           *)
 Unrepresentable(e, J) == ~J.parok /\ (e.clay = "cpar" \/ NeedsParsML(e.depth, e.ml, e.selfEnc))
-Domain(e, J) == J.valid /\ J.comp /\ ~RefuseArglikeSource(e, J) /\ ~Unrepresentable(e, J)
+(* named deviation RefuseParenthesisedPatternExpr: in `case (7):` the parentheses are a group_pattern, not  *)
+(* part of the value expression; pfst refuses source that comes in parentheses for a pattern expression    *)
+(* ("cannot put parenthesized ... to pattern expression") instead of moving them to the pattern             *)
+RefuseParenthesisedPatternExpr(e, J) == J.nt \in {"literal_value", "literal_key"} /\ e.clay = "cpar"
+Domain(e, J) == /\ J.valid /\ J.comp /\ ~RefuseArglikeSource(e, J) /\ ~Unrepresentable(e, J)
+                /\ ~RefuseParenthesisedPatternExpr(e, J)
+(* the refusal side: in a strict slot (closed list of literal forms / annotation targets) a request for any *)
+(* other kind must raise and leave the source exactly as it was                                            *)
+MustRefuse(e, J) == J.strict /\ ~J.valid
 PutClauses(e) ==
   IF ~Known(e) THEN {Cl("UnknownCase", FALSE)} ELSE
   LET J == Judge(e.slot, e.child) IN
-  IF ~Domain(e, J) THEN {}            \* outside the domain: not a request the property speaks about
+  IF MustRefuse(e, J) THEN {Cl("RefusedCleanly", e.outcome # "ok" /\ e.postS = e.preS /\ e.sameText)}
+  ELSE IF ~Domain(e, J) THEN {}       \* outside the domain: not a request the property speaks about
   ELSE IF e.outcome # "ok" THEN {Cl("Carried", FALSE)}
   ELSE {Cl("Carried", TRUE), Cl("Regroup.parse", e.postS # 0)}
        \cup (IF e.postS = 0 THEN {} ELSE
              { Cl("Regroup.at", NodeAt(e.postS, e.path) = e.newS),
-               Cl("Regroup.rest", ReplacedAt(e.preS, e.postS, e.path, e.newS)) })
+               Cl("Regroup.rest", ReplacedAtD(e.preS, e.postS, e.path, e.newS, J.dep)) })
        \cup (IF Need(e, J) THEN {Cl("ParsWhenNeeded", Delimited(e))} ELSE {})
        \cup {Cl("NeededParsKept", e.ctxSub)}
 
